@@ -6,7 +6,7 @@
    select the code after / before the three fix: commits. *)
 From Coq Require Import List NArith Arith.
 From Kenlm Require Import C18.FilePieceModel C18.FilePieceSpec C18.WindowProofs C18.OpsProofs C18.MainProofs C18.Witnesses
-  C18.ReadCompressedModel C18.ReadCompressedProofs C18.TokenizeModel C18.TokenizeProofs.
+  C18.ReadCompressedModel C18.ReadCompressedProofs C18.TokenizeModel C18.TokenizeProofs C18.LineInputModel C18.LineInputProofs.
 Import ListNotations.
 
 (* MAIN: for every input, every read() chunking, every min_buffer, every page size, all three backends and every
@@ -93,6 +93,22 @@ Proof. exact tokeniter_words. Qed.
 
 Theorem C18_split_join : forall d l, join_with (filter d l) (split_on d l) = l.
 Proof. exact split_join. Qed.
+
+(* util::stream::LineInput: for every block size and every sequence of read() lengths, the blocks handed downstream put
+   back together are exactly the input's bytes and every block but the last ends with a newline (unless a block-sized
+   stretch has no newline at all, which the code reports as an error); the loop terminates.  The cut of one full block
+   (li_cut: the step (block) -> (emitted, carry)) only partitions it. *)
+Theorem C18_line_input_blocks : forall bs s,
+  match line_input bs s with
+  | LIOk blocks => concat blocks = src_rest s /\ Forall ends_nl (removelast blocks)
+  | LINoNewline _ => True
+  | LIFuel => False
+  end.
+Proof. exact line_input_spec. Qed.
+
+Theorem C18_line_input_cut : forall block out carry, li_cut block = Some (out, carry) ->
+  block = out ++ carry /\ ends_nl out /\ no_nl carry.
+Proof. exact li_cut_partition. Qed.
 
 (* ---- the code before the repairs (faithful model, variant `original`) ---- *)
 (* F11: Offset() under-reports after a compaction in read mode *)
